@@ -238,6 +238,27 @@ def handle_bad_run(prop, cfg, variant, seed, tier, idx, event, findings, state, 
     return True
 
 
+def run_conformance(variant):
+    """Scripted call sequences against the real kernel and the simulated one must agree (model fidelity guard)."""
+    try:
+        r = subprocess.run([os.path.join(BIN, variant), "conform"], stdout=subprocess.PIPE, stderr=subprocess.PIPE, text=True, timeout=60)
+    except Exception as e:
+        log("WARNING conformance self-test could not run: %s" % e)
+        return {"ran": False}
+    res = {"ran": True, "exit": r.returncode}
+    for line in r.stdout.splitlines():
+        try:
+            j = json.loads(line)
+            if j.get("type") == "conformance":
+                res.update({"observations": j["observations"], "mismatches": j["mismatches"]})
+        except Exception:
+            pass
+    if r.returncode != 0:
+        log("WARNING conformance self-test: simulated kernel disagrees with the real one on this host:\n%s" % r.stderr[-1500:])
+        res["detail"] = r.stderr[-1500:]
+    return res
+
+
 def check_property(prop, tier, seed):
     cfg = PROPS[prop]
     t_start = time.time()
@@ -251,6 +272,7 @@ def check_property(prop, tier, seed):
     total = float(os.environ.get("VERIF_TIME", total))
     state = {"summaries": [], "samples": [], "violations": [], "known": {}, "known_runs": 0, "infra": [], "hashes": set(), "inconclusive": 0,
              "seen": set(), "dup_violation_runs": 0}
+    conformance = run_conformance(variants[0]) if cfg.get("conformance") else None
     per = total / len(variants)
     for v in variants:
         run_variant(prop, cfg, v, seed, tnum, per, findings, state)
@@ -303,6 +325,7 @@ def check_property(prop, tier, seed):
             "known_findings_printed": known_printed, "known_finding_runs": state["known_runs"],
             "violations_found": state["violations"],
             "build_s": round(bt, 1),
+            "kernel_model_conformance": conformance,
         },
         "assumptions": cfg["assumptions"],
     }
@@ -357,6 +380,9 @@ def selftest():
                 sys.stderr.write(r.stderr[-500:])
             log("selftest %s %s %s: %s" % (prop, cfg["harness"], v, status))
             _ = last
+    for v in ("A.c11.posix", "T.c11.posix"):
+        c = run_conformance(v)
+        log("selftest conformance %s: %s" % (v, json.dumps(c)))
     return 0 if ok else 2
 
 
